@@ -7,7 +7,7 @@ the plain slices (every block size class, sizes 0/1/below/at/above one block/exa
 (b) end-to-end stdout of every stored form == stdout of the plain file, for text, accounting records, evtx and
 journals, with and without a window, at several --blocksz; compressor parameters swept as far as the installed
 tools allow (gzip levels 0-9 and header fields, bzip2 -1..-9 incl. multi-block, xz presets/checks, lz4 block
-sizes/linked/checksums, tar ustar/gnu/pax with 1..4 members in every position)."""
+sizes/linked/checksums, tar ustar/gnu/pax with 1..4 members in every position and member names that need the long-name extensions)."""
 import json
 import lzma
 import os
@@ -216,6 +216,20 @@ def run(pid, tier, seed):
                 files_plain = {n_: b_ for n_, b_ in members}
                 cases.append(("tar:%d-members" % nm, Case(files_plain, ["--color", "never"] + [n_ for n_, _ in members]),
                               Case({"multi.tar": gen.tar_bytes(members, fmt=fmt)}, ["--color", "never", "multi.tar"])))
+        # tar member names: long paths (gnu @LongLink / pax path records / ustar prefix split), non-ASCII, blanks
+        longdir = "var/log/pods/" + "kube-system_coredns-5d78c9869d-abcde_0123456789abcdef0123456789abcdef" + "/coredns"
+        namesets = [[longdir + "/0.log", "short.log"], ["d/" + "x" * 120 + ".log"], ["dir with blank/" + "\u00e9\u00e8 \u03c9.log", "a.log"],
+                    ["p" * 90 + "/" + "q" * 90 + "/m.log", longdir + "/1.log", "z.log"]]
+        for names in (namesets if tier == "thorough" else namesets[:3]):
+            blobs = [text_blob(rng, rng.choice([80, 900, 5000])) for _ in names]
+            plain = {"m%d.log" % j: b_ for j, b_ in enumerate(blobs)}
+            for fmt, fl in ((tarfile.USTAR_FORMAT, "ustar"), (tarfile.GNU_FORMAT, "gnu"), (tarfile.PAX_FORMAT, "pax")):
+                try:
+                    arc = gen.tar_bytes(list(zip(names, blobs)), fmt=fmt)
+                except ValueError:
+                    continue          # the format cannot hold the name
+                cases.append(("tar:names-%s" % fl, Case(plain, ["--color", "never"] + sorted(plain)),
+                              Case({"names.tar": arc}, ["--color", "never", "names.tar"])))
         # shipped evtx / journal forms against their plain form
         shipped = []
         ev = "logs/programs/evtx/Microsoft-Windows-Kernel-PnP%4Configuration.evtx"
